@@ -41,6 +41,17 @@ STRINGS = ["", "a", "abc", "  ab ", "Abc", "12.5"]
 _dbs = None
 
 
+def begin_case():
+    """Every case starts from a brand-new instance and an empty driver command log (the log is the replay script:
+    it must not grow with the number of cases a worker has executed)."""
+    phr._sessions.clear()
+
+
+def case_script(problems, variant="rel"):
+    """The driver command log of this case - only shipped to the parent when there is something to report."""
+    return core.get_drv(variant).script() if problems else ""
+
+
 def session(variant="rel"):
     global _dbs
     if _dbs is None:
